@@ -31,6 +31,7 @@ def run(ctx):
     ctx.guarded("R-C16-registry", registry, ctx, prog)
     ctx.guarded("R-C16-fire", registered_then_reported, ctx, prog)
     ctx.guarded("R-C16-handover", handover, ctx, prog)
+    ctx.guarded("R-C16-fire", decided_by_admitted, ctx, prog)
 
 
 def will_wakes_subscribers(ctx, prog):
@@ -445,3 +446,33 @@ def handover(ctx, prog):
                       "a path from Network::readv (which appends the packets it decoded to the buffer shared with the router) to the end of the link skips LinkTx::notify — the error of a malformed later packet is returned first: "
                       "the router never processes the packets decoded before it (a DISCONNECT among them does not discard the will), so the outcome depends on how the client's bytes were chunked",
                       site=body.loc(body.blocks[fills[0]]["t"].get("sp")), path=path_lines(body, p) if p else None)
+
+
+def decided_by_admitted(ctx, prog):
+    """The delayed will of a client's previous connection is decided (AwaitingWill::Fire / Cancel sent to its decider) by
+    the NEXT connection of that client id — which must have been admitted by then. A CONNECT the router refuses
+    (connection limit, bad client id) establishes nothing and must not cancel or fire anybody's will."""
+    rule = "R-C16-fire"
+    body = prog.one(r"^server::broker::remote::\{closure#0\}$")
+    signals = []
+    for bb, t in body.calls():
+        if body.is_cleanup(bb) or not re.search(r"flume::Sender::<T>::(try_send|send|send_async)$", callee_path(t)):
+            continue
+        if "AwaitingWill" in body.local_ty(op_local(t["args"][0])) if op_local(t["args"][0]) is not None else False:
+            signals.append((bb, t))
+    if not signals:
+        raise AnchorMissing("broker::remote: the signal to the previous connection's will decider (Sender<AwaitingWill>::try_send) was not found")
+    ok_edges = []
+    for sw in discr_switches(body, r"Result$"):
+        ty = body.local_ty(sw[4]["l"])
+        if re.search(r"Result<link::remote::RemoteLink<", ty) and not sw[4].get("p"):
+            ok_edges.append(variant_target(sw, "Ok"))
+    if not ok_edges:
+        raise AnchorMissing("broker::remote: the match on RemoteLink::new's result was not found")
+    for bb, t in signals:
+        if any(dominates(body, e, bb) for e in ok_edges):
+            ctx.ok(rule, body.id, "the previous connection's will is decided only after RemoteLink::new succeeded (the new connection is admitted)", site=body.loc(t.get("sp")))
+        else:
+            ctx.violation(rule, body.id, "will decided by a connection that is not admitted yet",
+                          "the decider of the previous connection's delayed will is signalled (Fire/Cancel) before RemoteLink::new has registered the new connection: a CONNECT that the router then refuses (connection limit, client id) "
+                          "has already cancelled — or fired — the will of a connection that nobody took over", site=body.loc(t.get("sp")))
